@@ -5,9 +5,9 @@ import (
 	"errors"
 	"fmt"
 	"io"
-	"net/http"
 	"math/rand"
 	"net"
+	"net/http"
 	"path/filepath"
 	"strconv"
 	"strings"
